@@ -135,6 +135,8 @@ class Interp:
                 self.env[s.targets[0].id] = self.ev(s.value)
             elif isinstance(s, ast.AnnAssign) and isinstance(s.target, ast.Name) and s.value is not None:
                 self.env[s.target.id] = self.ev(s.value)
+            elif isinstance(s, ast.AnnAssign) and s.value is None:
+                pass  # a bare annotation declares a type, nothing happens at run time
             elif isinstance(s, ast.AugAssign) and isinstance(s.target, ast.Name) and isinstance(s.op, ast.Add):
                 self.env[s.target.id] = self.env[s.target.id] + self.ev(s.value)
             elif isinstance(s, (ast.Assign, ast.AugAssign, ast.Delete)):  # subscript / attribute targets
